@@ -58,7 +58,7 @@ func buildKeytab() []accept.KeytabEntry {
 		kt = append(kt, accept.KeytabEntry{Realm: realm, Name: kmsg.N(1, "ldap", "alt.test.gokrb5"), Kvno: 1, Etype: et, Timestamp: 1600000000,
 			Key: pcommon.RefKey(vh.NewRand("c01kt", realm, "ldapalt", 1, et), et)})
 	}
-	return widenKeytab(kt)
+	return widenRealms(widenKeytab(kt))
 }
 
 func findKey(kt []accept.KeytabEntry, rl string, n kmsg.Name, kv uint32, et int32) kmsg.Key {
@@ -108,7 +108,9 @@ type cas struct {
 	// settings overrides applied by defects
 	clientAddr *kmsg.Addr
 	pacKind    string
-	rnd        *vh.Rand
+	// overrideWithRealm: the keytab principal override (if the configuration has one) is written as name@REALM
+	overrideWithRealm bool
+	rnd               *vh.Rand
 	// trailing builds raw DER that is appended inside the Ticket SEQUENCE after enc-part. RFC 4120 knows no such element: the
 	// reference judges the request without it (what the KDC sealed), gokrb5 receives it; it must have no influence.
 	trailing func(c *cas) []byte
@@ -135,7 +137,8 @@ func truncate(rnd *vh.Rand) func([]byte) []byte {
 
 func catalogue() []defect {
 	cat := append(narrowCatalogue(), kvnoDefects()...)
-	return append(cat, pacDefects()...)
+	cat = append(cat, pacDefects()...)
+	return append(cat, confDefects()...)
 }
 
 func narrowCatalogue() []defect {
@@ -427,6 +430,8 @@ func TestProp(t *testing.T) {
 		"seeded (quick) or all (thorough) ordered pairs; the expected verdict and identity come from the reference acceptor (RFC 4120 3.2.3) run on the same bytes, settings and virtual time; " +
 		"VerifyAPREQ runs under a virtual clock (testing/synctest) so the exact skew bounds are decided to the nanosecond. The keytab is loaded from the bytes of the reference keytab writer and holds, " +
 		"per principal, key versions that need 8, 16 and 32 bits (PRNG-drawn): tickets sealed under each of them, and tickets whose label differs from the sealing version only in the high octets. " +
+		"Realms: the keytab also holds the principals in a mixed-case and a lower-case realm; tickets issued there, and tickets labelled with a letter-case variant of a keytab realm that is no keytab realm. " +
+		"The keytab principal override is also written as name@REALM (realm of the ticket). Ticket address lists of mixed types (IPv4, NetBIOS, IPv6 in PRNG order, 3-6 entries) with the client address at the first / a later position, unlisted, or listed bytes under another type. " +
 		"PACs: valid, signed data changed, wrong key, and containers that cannot be read (cut inside header / buffer table / buffers, buffer count or buffer extent beyond the data). " +
 		"distinct = (etype,config,defect list); non-trivial = all")
 	r.Assume("reference acceptor ref/accept and reference crypto ref/kcrypto (RFC-vector self-test on every run)")
@@ -511,6 +516,12 @@ func TestProp(t *testing.T) {
 	r.Require("reject_agreed_wide_kvno_mislabelled", 1000)
 	r.Require("reject_agreed_unreadable_pac", 300)
 	r.Require("accept_agreed_unreadable_pac", 100) // PAC decoding disabled
+	// keytab realms that are not all upper case, ticket realms in another letter case; override written name@REALM; address lists of mixed types
+	r.Require("accept_agreed_realm_letter_case", 200)
+	r.Require("reject_agreed_realm_letter_case", 600)
+	r.Require("accept_agreed_override_written_with_realm", 50)
+	r.Require("accept_agreed_mixed_addr_types", 400)
+	r.Require("reject_agreed_mixed_addr_types", 400)
 }
 
 // family names the widened input family of a single-defect case (for the observation thresholds).
@@ -526,7 +537,7 @@ func family(names []string) string {
 	case n == "pac-shorter-than-header", n == "pac-shorter-than-buffer-table", n == "pac-cut-inside-buffers", n == "pac-buffer-count-beyond-data", n == "pac-buffer-outside-data":
 		return "unreadable_pac"
 	}
-	return ""
+	return confFamily(names[0])
 }
 
 func addPAC(r *vh.Run, c *cas) bool {
@@ -600,7 +611,11 @@ func runCase(t *testing.T, r *vh.Run, ck string, c *cas, gkt *keytab.Keytab, kin
 	}
 	if c.cfg.override {
 		rs.Override = &altName
-		opts = append(opts, service.KeytabPrincipal(altName.String()))
+		ovText := altName.String()
+		if c.overrideWithRealm {
+			ovText += "@" + c.m.Realm
+		}
+		opts = append(opts, service.KeytabPrincipal(ovText))
 	}
 	now := c.now0.Add(c.nowExtra)
 	replaySet := map[string]bool{}
@@ -721,6 +736,9 @@ func runCase(t *testing.T, r *vh.Run, ck string, c *cas, gkt *keytab.Keytab, kin
 		if fam := family(names); fam != "" {
 			r.Inc("accept_agreed_" + fam)
 		}
+		if c.cfg.override && c.overrideWithRealm && len(names) == 1 {
+			r.Inc("accept_agreed_override_written_with_realm")
+		}
 		if kind == "base" {
 			r.SampleKind("accepted-base", 2, detail())
 		}
@@ -760,7 +778,9 @@ func singleKey(names []string) string {
 	return strings.Join(s, "+")
 }
 
-func validBase(c config) bool { return c.clientAddr != "mismatch" && !(c.requireAddr && c.clientAddr == "") }
+func validBase(c config) bool {
+	return c.clientAddr != "mismatch" && !(c.requireAddr && c.clientAddr == "")
+}
 
 var _ = bytes.Equal
 
